@@ -216,6 +216,8 @@ variable {V : Type}
 
 def Pos (m : KMap (Nat × V)) : Prop := ∀ k e, m.get k = some e → 1 ≤ e.1
 
+theorem hp_le {m : KMap (Nat × V)} (h : Pos m) {k : Int} {e : Nat × V} (hg : m.get k = some e) : 1 ≤ e.1 := h k e hg
+
 theorem pos_empty : Pos (KMap.empty : KMap (Nat × V)) := by
   intro k e h; cases h
 
@@ -357,6 +359,134 @@ theorem terms_keyAsc_exact (p : TermsP) (sub : Req) (ho : p.order = .keyAsc) (hs
     = (termsFinal p ((collect (M := M) (.terms p sub) parts.flatten).map.entries.map fun e => (e.1, e.2.1, finalize sub e.2.2)) _ _).1
   rw [shown_keyAsc_of_pos p ho hmdc _ hpos1, shown_keyAsc_of_pos p ho hmdc _ hpos2,
     terms_keyAsc_cut_exact p sub ho hsz hsub parts]
+
+/-! ### `sum_other_doc_count` is exact as well (conservation) -/
+
+theorem supp_foldl {V : Type} (f : (Nat × V) → (Nat × V) → (Nat × V)) : ∀ (ms : List (KMap (Nat × V))) (acc : KMap (Nat × V)),
+    (∀ m ∈ ms, Supp m) → Supp acc → Supp (ms.foldl (KMap.merge f) acc)
+  | [], _, _, h => h
+  | m :: ms, acc, hms, h => by
+    simp only [List.foldl_cons]
+    exact supp_foldl f ms _ (fun x hx => hms x (List.mem_cons_of_mem _ hx))
+      (supp_merge f h (hms m List.mem_cons_self))
+
+theorem sumCounts_map_keep {V W : Type} (g : V → W) (l : List (Int × Nat × V)) :
+    sumCounts (l.map fun e => ((e.1, e.2.1, g e.2.2) : Int × Nat × W)) = sumCounts l := by
+  unfold sumCounts
+  rw [List.map_map]
+  rfl
+
+theorem sumCounts_entries_eq {V : Type} (m : KMap (Nat × V)) (hs : Supp m) (U : List Int) (hU : U.Nodup)
+    (hin : ∀ e ∈ m.entries, e.1 ∈ U) : sumOver U (cnt m) = sumCounts m.entries := by
+  apply sumOver_eq_sumCounts U hU m.entries (cnt m) (entries_keys_nodup m) hin
+  · intro e he
+    unfold cnt
+    rw [(mem_entries.1 he).2]
+  · intro k hk
+    unfold cnt
+    cases hg : m.get k with
+    | none => rfl
+    | some e => exact absurd (List.mem_map_of_mem (f := (·.1)) (mem_entries_of_get hs hg)) hk
+
+theorem other_keyAsc_of_pos {V W : Type} (p : TermsP) (ho : p.order = .keyAsc) (hmdc : p.minDocCount ≤ 1)
+    (m : KMap (Nat × V)) (hp : Pos m) (g : V → W) (other err : Nat) :
+    (termsFinal p (m.entries.map fun e => (e.1, e.2.1, g e.2.2)) other err).2.1
+      = other + sumCounts (m.entries.drop p.size) := by
+  show other + sumCounts ((sortBuckets p.order ((m.entries.map fun e => (e.1, e.2.1, g e.2.2)).filter
+    (fun b => decide (p.minDocCount ≤ b.2.1)))).drop p.size) = _
+  have hf : (m.entries.map fun e => (e.1, e.2.1, g e.2.2)).filter (fun b => decide (p.minDocCount ≤ b.2.1))
+      = m.entries.map fun e => (e.1, e.2.1, g e.2.2) := by
+    apply List.filter_eq_self.2
+    intro b hb
+    obtain ⟨e, he, rfl⟩ := List.mem_map.1 hb
+    have := hp e.1 e.2 (mem_entries.1 he).2
+    exact decide_eq_true (Nat.le_trans hmdc this)
+  have hpw : (m.entries.map fun e => ((e.1, e.2.1, g e.2.2) : Int × Nat × W)).Pairwise (fun a b => a.1 < b.1) :=
+    List.pairwise_map.2 (entries_pairwise_key m)
+  rw [hf, ho, sortBuckets_keyAsc_of_sorted _ hpw, ← List.map_drop, sumCounts_map_keep]
+
+theorem terms_keyAsc_other_exact (p : TermsP) (sub : Req) (ho : p.order = .keyAsc) (hsz : p.size ≤ p.segSize)
+    (hmdc : p.minDocCount ≤ 1) (hsub : ∀ x : Inter M sub, harvest sub x = x) (parts : List (List Doc)) :
+    (finalize (M := M) (.terms p sub) (mergedTerms (M := M) p sub parts)).2.1
+      = (finalize (M := M) (.terms p sub) (collect (M := M) (.terms p sub) parts.flatten)).2.1 := by
+  have hnd : ∀ d ∈ parts.flatten, (termKeys p d).Nodup := fun d _ => termKeys_nodup p d
+  have hmapeq : (mergedTerms (M := M) p sub parts).map
+      = ((parts.map (collectB (M := M) sub (termKeys p))).map (cutAsc p.segSize)).foldl
+          (KMap.merge (entryMerge (merge (M := M) sub))) KMap.empty := by
+    unfold mergedTerms
+    rw [foldl_terms_map, List.map_map, List.map_map]
+    congr 1
+    apply List.map_congr_left
+    intro part _
+    exact collectSeg_terms_map p sub ho hsub part
+  have hpos1 : Pos (mergedTerms (M := M) p sub parts).map := by
+    rw [hmapeq]
+    apply pos_foldl
+    · intro m hm
+      obtain ⟨t, ht, rfl⟩ := List.mem_map.1 hm
+      obtain ⟨part, _, rfl⟩ := List.mem_map.1 ht
+      exact pos_cutAsc _ (pos_collectB sub (termKeys p) part)
+    · exact pos_empty
+  have hsupp1 : Supp (mergedTerms (M := M) p sub parts).map := by
+    rw [hmapeq]
+    apply supp_foldl
+    · intro m hm
+      obtain ⟨t, ht, rfl⟩ := List.mem_map.1 hm
+      obtain ⟨part, _, rfl⟩ := List.mem_map.1 ht
+      exact cutAsc_supp _ (collectB_Supp_pv sub (termKeys p) part)
+    · exact supp_empty
+  have hX' : collect (M := M) (.terms p sub) parts.flatten = ⟨collectB sub (termKeys p) parts.flatten, 0, 0⟩ :=
+    collect_terms p sub parts.flatten
+  have hpos2 : Pos (collect (M := M) (.terms p sub) parts.flatten).map := by
+    rw [hX']; exact pos_collectB sub (termKeys p) parts.flatten
+  have hsupp2 : Supp (collect (M := M) (.terms p sub) parts.flatten).map := by
+    rw [hX']; exact collectB_Supp_pv sub (termKeys p) parts.flatten
+  -- the universe of keys
+  let U : List Int := spanOf (hullOfList (parts.flatten.flatMap (termKeys p)))
+  have hU : U.Nodup := nodup_spanOf _
+  have hUmem : ∀ d ∈ parts.flatten, ∀ k ∈ termKeys p d, k ∈ U := fun d hd k hk =>
+    mem_spanOf.2 (inHull_hullOfList (List.mem_flatMap.2 ⟨d, hd, hk⟩))
+  have hcov : ∀ part ∈ parts, ∀ d ∈ part, ∀ k ∈ termKeys p d, k ∈ U := fun part hpart d hd k hk =>
+    hUmem d (List.mem_flatten.2 ⟨part, hpart, hd⟩) k hk
+  obtain ⟨b1, _, b3⟩ := terms_error_bound (M := M) p sub parts U hU hcov
+  have hin1 : ∀ e ∈ (mergedTerms (M := M) p sub parts).map.entries, e.1 ∈ U := by
+    intro e he
+    have hg := (mem_entries.1 he).2
+    have hc : cnt (mergedTerms (M := M) p sub parts).map e.1 = e.2.1 := by unfold cnt; rw [hg]
+    have h1 := hp_le hpos1 hg
+    have h2 := b1 e.1
+    rw [hc] at h2
+    have hne : parts.flatten.filter (fun d => (termKeys p d).contains e.1) ≠ [] := by
+      intro h0; rw [h0] at h2; simp at h2; omega
+    obtain ⟨d, hd⟩ := List.exists_mem_of_ne_nil _ hne
+    obtain ⟨hd1, hd2⟩ := List.mem_filter.1 hd
+    exact hUmem d hd1 e.1 (by simpa using hd2)
+  have hin2 : ∀ e ∈ (collect (M := M) (.terms p sub) parts.flatten).map.entries, e.1 ∈ U := by
+    intro e he
+    have hg := (mem_entries.1 he).2
+    rw [hX'] at hg
+    obtain ⟨d, hd, hk⟩ := collectB_supp sub (termKeys p) parts.flatten hnd hg
+    exact hUmem d hd e.1 hk
+  have e1 := sumCounts_entries_eq _ hsupp1 U hU hin1
+  have e2 := sumCounts_entries_eq _ hsupp2 U hU hin2
+  have e3 : sumOver U (cnt (collect (M := M) (.terms p sub) parts.flatten).map)
+      = sumOver U (fun k => (parts.flatten.filter (fun d => (termKeys p d).contains k)).length) := by
+    apply sumOver_congr
+    intro k _
+    rw [hX']
+    exact collectB_cnt sub (termKeys p) parts.flatten hnd k
+  have hk1 := terms_keyAsc_cut_exact (M := M) p sub ho hsz hsub parts
+  have s1 := sumCounts_append ((mergedTerms (M := M) p sub parts).map.entries.take p.size)
+    ((mergedTerms (M := M) p sub parts).map.entries.drop p.size)
+  have s2 := sumCounts_append ((collect (M := M) (.terms p sub) parts.flatten).map.entries.take p.size)
+    ((collect (M := M) (.terms p sub) parts.flatten).map.entries.drop p.size)
+  rw [List.take_append_drop] at s1 s2
+  rw [hk1] at s1
+  have hoth : (collect (M := M) (.terms p sub) parts.flatten).other = 0 := by rw [hX']
+  show (termsFinal p ((mergedTerms (M := M) p sub parts).map.entries.map fun e => (e.1, e.2.1, finalize sub e.2.2)) _ _).2.1
+    = (termsFinal p ((collect (M := M) (.terms p sub) parts.flatten).map.entries.map fun e => (e.1, e.2.1, finalize sub e.2.2)) _ _).2.1
+  rw [other_keyAsc_of_pos p ho hmdc _ hpos1, other_keyAsc_of_pos p ho hmdc _ hpos2, hoth]
+  omega
 
 end termsKeyFinal
 
